@@ -3636,6 +3636,656 @@ fn judge_flags(ctx: &Ctx, stats: &Stats, h: &Arc<Hier>, q: &Query, faults: &Arc<
     }
 }
 
+// ------------------------------------------------------------ histories in which TIME PASSES on one context
+//
+// Hook `dnssec::validator::verif_clock` (feature verif-hooks): a per-thread offset added to both clocks the
+// validator reads (Timestamp::now() for signature validity and ttl_for_sig, Instant for the age of cached
+// nodes).  A history is executed on ONE thread: the offset is set before every validation (the harness'
+// block_on polls the validation future on the calling thread) and reset to 0 before and after the history.
+//
+// All times `x` below are seconds relative to a base B fixed at the start of the run (B = start + 100000,
+// so that the offset B + x - real_now is never negative); the signatures are made for absolute windows
+// [B + inc, B + exp].
+
+use domain::dnssec::validator::verif_clock;
+
+/// TTL of every record of the hierarchies (see `rec`); the RRSIG validity ends of the schedules are short
+/// compared with it.
+const TIME_TTL: i64 = 3600;
+/// Default of Config::max_node_validity / the value configured in config variant 1.
+const TIME_MAXV_DEFAULT: i64 = 604_800;
+const TIME_MAXV_SHORT: i64 = 250;
+/// Default of Config::max_bogus_validity: a Bogus node may be kept this long.
+const TIME_BOGUS_VALIDITY: i64 = 30;
+const TIME_PAST: i64 = -86_400;
+const TIME_FAR: i64 = 2_000_000;
+
+#[derive(Clone, Copy, PartialEq, Eq, Hash, PartialOrd, Ord, Debug)]
+enum LinkKind {
+    /// RRSIG of an ordinary RRset of a zone (answer data, SOA of a negative answer)
+    Data,
+    /// RRSIG of an NSEC / NSEC3 RRset of a zone
+    Denial,
+    /// RRSIG of the zone's DNSKEY RRset
+    Key,
+    /// RRSIG (made by the parent) of the DS RRset for the zone
+    Ds,
+}
+
+/// One link of a chain of trust: all RRSIGs of one kind of one zone share one validity window.
+#[derive(Clone, Copy, PartialEq, Eq, Hash, PartialOrd, Ord, Debug)]
+struct Link {
+    kind: LinkKind,
+    /// zone index; for Ds the CHILD zone
+    zone: usize,
+}
+
+fn link_of(h: &Hier, zi: usize, srck: &Labels, t: u16) -> Link {
+    match t {
+        T_DNSKEY => Link { kind: LinkKind::Key, zone: zi },
+        T_DS => match h.zones.iter().position(|z| !z.apex.is_empty() && key(&z.apex) == *srck) {
+            Some(c) => Link { kind: LinkKind::Ds, zone: c },
+            None => Link { kind: LinkKind::Data, zone: zi },
+        },
+        T_NSEC | T_NSEC3 => Link { kind: LinkKind::Denial, zone: zi },
+        _ => Link { kind: LinkKind::Data, zone: zi },
+    }
+}
+
+fn link_name(h: &Hier, l: Link) -> String {
+    let k = match l.kind {
+        LinkKind::Data => "data-rrsig",
+        LinkKind::Denial => "denial-rrsig",
+        LinkKind::Key => "dnskey-rrsig",
+        LinkKind::Ds => "ds-rrsig",
+    };
+    format!("{k}@{}", show(&h.zones[l.zone].apex))
+}
+
+/// Which signatures the upstream hands out.
+#[derive(Clone, Copy, PartialEq, Eq, Debug)]
+enum Sched {
+    /// nothing expires within any horizon of the menu
+    None,
+    /// link k (index into the link order) expires at +100 s, the others at +200, +300, ... in link order
+    Expire(usize),
+    /// link k becomes valid only at +100 s; everything else is valid from the past to the far future
+    Incept(usize),
+}
+
+#[derive(Clone, Copy, PartialEq, Eq, Debug)]
+enum Ver {
+    /// the records as originally signed (windows of the schedule)
+    Orig,
+    /// re-signed at virtual time x: [x - 3600, x + 86400]
+    Fresh(i64),
+}
+
+#[derive(Clone, Debug)]
+struct Served {
+    set: (usize, Labels, u16),
+    link: Link,
+    inc: i64,
+    exp: i64,
+    ttl: i64,
+}
+
+impl Served {
+    /// valid at some / at every second of [lo, hi]
+    fn valid_some(&self, lo: i64, hi: i64) -> bool {
+        self.inc <= hi && lo <= self.exp
+    }
+    fn valid_all(&self, lo: i64, hi: i64) -> bool {
+        self.inc <= lo && hi <= self.exp
+    }
+}
+
+/// One RRset of the chain from the trust anchor to a zone, with the upstream question that delivers it.
+#[derive(Clone, Debug)]
+struct ChainSet {
+    set: (usize, Labels, u16),
+    link: Link,
+    /// needed for a Secure verdict: DS and DNSKEY RRsets (not the records of a negative DS response)
+    strict: bool,
+}
+
+struct TimeCtx {
+    h: Arc<Hier>,
+    base: i64,
+    /// links touched by the query menu, leaf zone first
+    links: Vec<Link>,
+    queries: Vec<Query>,
+    memo: std::sync::RwLock<std::collections::HashMap<(usize, Labels, u16, i64, i64), Vec<u8>>>,
+    /// per zone: the RRsets of its chain
+    chains: Vec<Vec<ChainSet>>,
+}
+
+fn unix_now() -> i64 {
+    std::time::SystemTime::now().duration_since(std::time::UNIX_EPOCH).unwrap().as_secs() as i64
+}
+
+impl TimeCtx {
+    fn new(h: &Arc<Hier>, base: i64, queries: Vec<Query>) -> TimeCtx {
+        let mut chains = vec![];
+        for z in &h.zones {
+            chains.push(time_chain(h, &z.apex));
+        }
+        let mut tc = TimeCtx { h: h.clone(), base, links: vec![], queries, memo: Default::default(), chains };
+        // links touched by the menu: RRsets of the answers and of the chains of the zones involved
+        let mut links: BTreeSet<Link> = BTreeSet::new();
+        for q in &tc.queries {
+            let r = h.answer(&q.name, q.qtype);
+            let mut zones: BTreeSet<usize> = BTreeSet::new();
+            zones.insert(h.classify(&q.name, q.qtype).zone());
+            for p in sets_of(&r) {
+                if p.s < 2 && !p.sigids.is_empty() {
+                    links.insert(link_of(h, p.zi, &p.srck, p.t));
+                    zones.insert(p.zi);
+                }
+            }
+            for z in zones {
+                for c in &tc.chains[z] {
+                    links.insert(c.link);
+                }
+            }
+        }
+        // leaf zone first, the anchor zone last
+        let rank = |z: usize| match z {
+            0 => 1000,
+            1 => 999,
+            z => z,
+        };
+        let mut v: Vec<Link> = links.into_iter().collect();
+        v.sort_by_key(|l| (rank(l.zone), l.kind));
+        tc.links = v;
+        tc
+    }
+
+    fn window(&self, sched: Sched, ver: Ver, link: Link) -> (i64, i64) {
+        if let Ver::Fresh(x) = ver {
+            return (x - 3600, x + 86_400);
+        }
+        let pos = self.links.iter().position(|l| *l == link);
+        match (sched, pos) {
+            (Sched::Expire(k), Some(i)) => {
+                if i == k {
+                    (TIME_PAST, 100)
+                } else {
+                    let r = if i < k { i } else { i - 1 };
+                    (TIME_PAST, 200 + 100 * r as i64)
+                }
+            }
+            (Sched::Incept(k), Some(i)) if i == k => (100, TIME_FAR),
+            _ => (TIME_PAST, TIME_FAR),
+        }
+    }
+
+    /// RRSIG RDATA for the RRset (zone, source owner, type) with the window [base+inc, base+exp]; one
+    /// signature per (RRset, window) for the whole run, so that a replayed record is octet-identical.
+    fn sig(&self, zi: usize, srck: &Labels, t: u16, inc: i64, exp: i64) -> Vec<u8> {
+        let k = (zi, srck.clone(), t, inc, exp);
+        if let Some(v) = self.memo.read().unwrap().get(&k) {
+            return v.clone();
+        }
+        let z = &self.h.zones[zi];
+        let (ttl, rds) = z.sets.get(&(srck.clone(), t)).expect("MACHINERY: time upstream signs a set of the zone");
+        let sk = z.key.as_ref().expect("MACHINERY: secure zone has a key");
+        let v = sign_set(sk, &unkey(srck), t, *ttl, rds, (self.base + inc) as u32, (self.base + exp) as u32);
+        self.memo.write().unwrap().entry(k).or_insert(v).clone()
+    }
+
+    /// Replace every RRSIG of `r` by the one of version `ver`; returns what is now in the response.
+    fn retime(&self, r: &mut Resp, sched: Sched, ver: Ver) -> Vec<Served> {
+        let mut out = vec![];
+        for p in sets_of(r) {
+            if p.sigids.is_empty() {
+                continue;
+            }
+            assert!(p.sigids.len() == 1, "MACHINERY: one RRSIG per RRset expected in the time hierarchies");
+            let link = link_of(&self.h, p.zi, &p.srck, p.t);
+            let (inc, exp) = self.window(sched, ver, link);
+            let rd = self.sig(p.zi, &p.srck, p.t, inc, exp);
+            let ttl = self.h.zones[p.zi].sets.get(&(p.srck.clone(), p.t)).map(|s| s.0).unwrap_or(0) as i64;
+            if let Some(e) = r.get_mut(p.sigids[0]) {
+                e.rr.rdata = rd;
+            }
+            if p.s < 2 {
+                out.push(Served { set: (p.zi, p.srck.clone(), p.t), link, inc, exp, ttl });
+            }
+        }
+        out
+    }
+}
+
+/// The RRsets the validator needs to get from the trust anchor (the root) to the zone `apex`: for every
+/// name on the way the DS response (DS RRset, or the NSEC/NSEC3 proof that there is none) and the DNSKEY
+/// RRset of every zone apex.
+fn time_chain(h: &Hier, apex: &Labels) -> Vec<ChainSet> {
+    let mut out: Vec<ChainSet> = vec![];
+    let mut n = apex.clone();
+    loop {
+        let is_apex = h.zones.iter().any(|z| z.apex == n && z.secure);
+        if is_apex {
+            let r = h.answer(&n, T_DNSKEY);
+            for p in sets_of(&r) {
+                if p.s == 0 && p.t == T_DNSKEY {
+                    out.push(ChainSet { set: (p.zi, p.srck.clone(), p.t), link: link_of(h, p.zi, &p.srck, p.t), strict: true });
+                }
+            }
+        }
+        if n.is_empty() {
+            break;
+        }
+        let r = h.answer(&n, T_DS);
+        for p in sets_of(&r) {
+            if p.s >= 2 || p.sigids.is_empty() {
+                continue;
+            }
+            // The proof that a name on the way is NOT a zone cut (empty non-terminal) or has no DS only steers
+            // the validator's search; the cryptographic chain is DNSKEY -> DS -> DNSKEY, so only those are
+            // demanded for a Secure verdict (the proofs count for the liveness half).
+            let strict = p.t == T_DS;
+            out.push(ChainSet { set: (p.zi, p.srck.clone(), p.t), link: link_of(h, p.zi, &p.srck, p.t), strict });
+        }
+        n = parent(&n);
+    }
+    out
+}
+
+#[derive(Clone, Copy, PartialEq, Eq, Debug)]
+enum UpMode {
+    /// the upstream replays the records as originally signed
+    Replay,
+    /// the upstream serves records re-signed at the time of the step
+    Fresh,
+}
+
+#[derive(Clone, Debug)]
+struct TStep {
+    x: i64,
+    q: usize,
+    mode: UpMode,
+}
+
+#[derive(Clone, Debug)]
+struct THist {
+    sched: Sched,
+    /// 0 default Config, 1 set_max_validity(250 s)
+    cfg: u8,
+    steps: Vec<TStep>,
+}
+
+struct TimeShared {
+    tc: Arc<TimeCtx>,
+    sched: Sched,
+    cur: Mutex<(Ver, i64, usize)>,
+    log: Mutex<Vec<(usize, i64, Served)>>,
+    calls: AtomicUsize,
+    over: AtomicBool,
+}
+
+#[derive(Clone)]
+struct TimeUp(Arc<TimeShared>);
+
+impl SendRequest<RequestMessage<Vec<u8>>> for TimeUp {
+    fn send_request(&self, req: RequestMessage<Vec<u8>>) -> Box<dyn GetResponse + Send + Sync> {
+        let s = &self.0;
+        let n = s.calls.fetch_add(1, AO::SeqCst) + 1;
+        if n > BUDGET {
+            s.over.store(true, AO::SeqCst);
+            return Box::new(Ready(Some(Err(ReqError::ConnectionClosed))));
+        }
+        let q = req.to_vec().ok().and_then(|v| mc::wire::read_message(&v).ok()).and_then(|m| m.questions.first().cloned());
+        let Some(q) = q else {
+            return Box::new(Ready(Some(Err(ReqError::FormError))));
+        };
+        let (ver, x, step) = *s.cur.lock().unwrap();
+        let mut r = s.tc.h.answer(&q.qname, q.qtype);
+        let served = s.tc.retime(&mut r, s.sched, ver);
+        {
+            let mut g = s.log.lock().unwrap();
+            for sv in served {
+                g.push((step, x, sv));
+            }
+        }
+        Box::new(Ready(Some(Message::from_octets(Bytes::from(r.encode())).map_err(|_| ReqError::ShortMessage))))
+    }
+}
+
+struct StepObs {
+    verdict: Verdict,
+    /// the validator's clock during the step: x .. x + (ticks of the real clock during the step)
+    lo: i64,
+    hi: i64,
+    msg: Vec<Served>,
+    over: bool,
+    calls: usize,
+}
+
+/// Resets the thread's clock offset when an execution ends, however it ends.
+struct OffsetReset;
+impl Drop for OffsetReset {
+    fn drop(&mut self) {
+        verif_clock::set_offset_secs(0);
+    }
+}
+
+fn run_time_history(tc: &Arc<TimeCtx>, hist: &THist) -> (Vec<StepObs>, Vec<(usize, i64, Served)>) {
+    let _reset = OffsetReset;
+    verif_clock::set_offset_secs(0);
+    let shared = Arc::new(TimeShared { tc: tc.clone(), sched: hist.sched, cur: Mutex::new((Ver::Orig, 0, 0)), log: Mutex::new(vec![]), calls: AtomicUsize::new(0), over: AtomicBool::new(false) });
+    let ta = TrustAnchors::from_u8(tc.h.ta_text.as_bytes()).expect("trust anchor");
+    let mut cfg = VConfig::new();
+    if hist.cfg == 1 {
+        cfg.set_max_validity(Duration::from_secs(TIME_MAXV_SHORT as u64));
+    }
+    let vc = ValidationContext::with_config(ta, TimeUp(shared.clone()), cfg);
+    let mut obs = vec![];
+    for (i, st) in hist.steps.iter().enumerate() {
+        let ver = if i == 0 || st.mode == UpMode::Replay { Ver::Orig } else { Ver::Fresh(st.x) };
+        *shared.cur.lock().unwrap() = (ver, st.x, i);
+        shared.calls.store(0, AO::SeqCst);
+        shared.over.store(false, AO::SeqCst);
+        let q = &tc.queries[st.q];
+        let mut r = tc.h.answer(&q.name, q.qtype);
+        let msg = tc.retime(&mut r, hist.sched, ver);
+        let bytes = r.encode();
+        let u0 = unix_now();
+        let off = tc.base + st.x - u0;
+        assert!(off >= 0, "MACHINERY: the run outlived the base of the virtual clock");
+        verif_clock::set_offset_secs(off as u64);
+        let mut m = Message::from_octets(bytes).expect("message");
+        let verdict = match guard(|| block_on(async { vc.validate_msg::<Vec<u8>, Vec<u8>>(&mut m).await })) {
+            Ok(Ok((s, _))) => Verdict::State(state_name(s).into()),
+            Ok(Err(e)) => Verdict::Err(format!("{e}")),
+            Err(p) => Verdict::Panic(p),
+        };
+        let u1 = unix_now();
+        assert_eq!(verif_clock::offset_secs(), off as u64, "MACHINERY: the clock offset of the thread changed during a validation");
+        verif_clock::set_offset_secs(0);
+        let stop = matches!(verdict, Verdict::Panic(_));
+        obs.push(StepObs { verdict, lo: st.x, hi: st.x + (u1 - u0), msg, over: shared.over.load(AO::SeqCst), calls: shared.calls.load(AO::SeqCst) });
+        if stop {
+            break;
+        }
+    }
+    let log = shared.log.lock().unwrap().clone();
+    (obs, log)
+}
+
+fn sched_json(tc: &TimeCtx, s: Sched) -> Value {
+    match s {
+        Sched::None => json!({"kind": "none"}),
+        Sched::Expire(k) => json!({"kind": "expire", "link": link_name(&tc.h, tc.links[k]), "index": k}),
+        Sched::Incept(k) => json!({"kind": "incept", "link": link_name(&tc.h, tc.links[k]), "index": k}),
+    }
+}
+
+fn thist_json(tc: &TimeCtx, hist: &THist, at: usize) -> Value {
+    let q = &tc.queries[hist.steps[at.min(hist.steps.len() - 1)].q];
+    json!({
+        "scenario": tc.h.name, "special": "time-history", "faults": [],
+        "qname": show(&q.name), "qtype": q.qtype,
+        "schedule": sched_json(tc, hist.sched), "config": hist.cfg,
+        "steps": hist.steps.iter().map(|s| json!([s.x, show(&tc.queries[s.q].name), tc.queries[s.q].qtype, if s.mode == UpMode::Replay { "replay" } else { "fresh" }])).collect::<Vec<_>>(),
+    })
+}
+
+/// Zones whose chain the answer to `q` depends on: the zone of the (final) name and every secure zone
+/// that signed an RRset of the message.
+fn time_zones(h: &Hier, q: &Query, msg: &[Served]) -> BTreeSet<usize> {
+    let mut zones: BTreeSet<usize> = msg.iter().map(|s| s.set.0).collect();
+    let mut name = q.name.clone();
+    for _ in 0..8 {
+        let t = h.classify(&name, q.qtype);
+        zones.insert(t.zone());
+        match t {
+            Truth::Cname { target, .. } | Truth::Dname { target, .. } => name = target,
+            _ => break,
+        }
+    }
+    zones
+}
+
+/// Oracle for one executed history; the times come from the schedule the harness chose itself.
+fn judge_time_history(ctx: &Ctx, stats: &Stats, tc: &Arc<TimeCtx>, hist: &THist, verbose: bool) {
+    let (obs, log) = run_time_history(tc, hist);
+    let h = &tc.h;
+    let maxv = if hist.cfg == 1 { TIME_MAXV_SHORT } else { TIME_MAXV_DEFAULT };
+    stats.count("time|histories");
+    let mut clean: Vec<bool> = vec![];
+    for (i, o) in obs.iter().enumerate() {
+        stats.eval();
+        let st = &hist.steps[i];
+        let q = &tc.queries[st.q];
+        let mode = if i == 0 { "original" } else if st.mode == UpMode::Replay { "replay" } else { "fresh" };
+        let ver = if i == 0 || st.mode == UpMode::Replay { Ver::Orig } else { Ver::Fresh(st.x) };
+        stats.count(&format!("time|verdict|{}", o.verdict.short()));
+        if o.hi != o.lo {
+            stats.count("time|steps-during-which-the-real-clock-ticked");
+        }
+        let zones = time_zones(h, q, &o.msg);
+        // ---- safety: Secure => every link valid at the time of the step
+        // (a) the RRsets of the validated message carry their own signatures
+        let mut broken: Vec<(Link, &'static str, &'static str)> = vec![];
+        for s in &o.msg {
+            if !s.valid_some(o.lo, o.hi) {
+                broken.push((s.link, "message", if s.exp < o.lo { "rrsig-expired" } else { "rrsig-not-yet-valid" }));
+            }
+        }
+        // (b) the chain: some delivered version of the RRset must be valid now, and must have been
+        // delivered within its TTL and the configured maximum node validity
+        for z in &zones {
+            for c in tc.chains[*z].iter().filter(|c| c.strict) {
+                let dl: Vec<&(usize, i64, Served)> = log.iter().filter(|d| d.0 <= i && d.2.set == c.set).collect();
+                let valid: Vec<&&(usize, i64, Served)> = dl.iter().filter(|d| d.2.valid_some(o.lo, o.hi)).collect();
+                if valid.is_empty() {
+                    let cause = if dl.iter().all(|d| d.2.exp < o.lo) { "rrsig-expired" } else if dl.iter().all(|d| d.2.inc > o.hi) { "rrsig-not-yet-valid" } else { "rrsig-not-valid" };
+                    broken.push((c.link, "chain", cause));
+                } else if !valid.iter().any(|d| o.hi - d.1 <= d.2.ttl.min(maxv) + 1) {
+                    broken.push((c.link, "chain", "link-cached-beyond-ttl-or-max-validity"));
+                }
+            }
+        }
+        broken.sort();
+        broken.dedup();
+        if !broken.is_empty() {
+            stats.count("time|steps-with-a-link-not-valid");
+            if broken.iter().all(|b| b.1 == "chain") {
+                stats.count("time|steps-with-valid-message-but-chain-link-not-valid");
+            }
+            if o.verdict.secure() {
+                stats.count("time|steps-with-a-link-not-valid|reported-secure");
+            }
+        }
+        // ---- liveness: everything the upstream serves in this step is valid, and no Bogus node can be left over
+        let all_served_valid = o.msg.iter().all(|s| s.valid_all(o.lo, o.hi))
+            && zones.iter().all(|z| {
+                tc.chains[*z].iter().all(|c| {
+                    let (inc, exp) = tc.window(hist.sched, ver, c.link);
+                    inc <= o.lo && o.hi <= exp
+                })
+            });
+        let leftovers = (0..i).any(|p| !clean[p] && o.lo - obs[p].hi <= TIME_BOGUS_VALIDITY + 1);
+        clean.push(all_served_valid && !leftovers);
+        let expected = expected_unmodified(h, q);
+        if verbose {
+            println!(
+                "  step {i}: x={} {} {} upstream={mode}: verdict {:?} (upstream calls {}), links not valid: {:?}, liveness demanded: {}",
+                st.x,
+                show(&q.name),
+                tname(q.qtype),
+                o.verdict,
+                o.calls,
+                broken.iter().map(|b| format!("{} [{}: {}]", link_name(h, b.0), b.1, b.2)).collect::<Vec<_>>(),
+                all_served_valid && !leftovers
+            );
+            for d in log.iter().filter(|d| d.0 == i) {
+                println!("      delivered {} {} {} window [{}, {}]", link_name(h, d.2.link), show(&unkey(&d.2.set.1)), tname(d.2.set.2), d.2.inc, d.2.exp);
+            }
+        }
+        let hist_text = || {
+            hist.steps[..=i]
+                .iter()
+                .enumerate()
+                .map(|(n, s)| format!("t={} {} {} [{}]", s.x, show(&tc.queries[s.q].name), tname(tc.queries[s.q].qtype), if n == 0 { "original" } else if s.mode == UpMode::Replay { "replay" } else { "fresh" }))
+                .collect::<Vec<_>>()
+                .join(" -> ")
+        };
+        if let Verdict::Panic(p) = &o.verdict {
+            ctx.violation(&format!("C14|validator|panic|{}", panic_sig(p)), &format!("validator panicked ({p}) in step {i} of a history in which time passes on one context: {} (scenario {})", hist_text(), h.name), thist_json(tc, hist, i));
+            return;
+        }
+        if o.over {
+            ctx.violation("C14|validator|time-passes|upstream-budget-exceeded", &format!("more than {BUDGET} upstream queries for one validation in a history in which time passes: {} (scenario {})", hist_text(), h.name), thist_json(tc, hist, i));
+        }
+        if o.verdict.secure() {
+            if expected != vec!["Secure"] {
+                ctx.violation(
+                    "C14|validator|time-passes|secure-below-insecure-delegation",
+                    &format!("Secure reported for {} {} which lies in a zone without a secure delegation: {} (scenario {})", show(&q.name), tname(q.qtype), hist_text(), h.name),
+                    thist_json(tc, hist, i),
+                );
+            } else if let Some(b) = broken.first() {
+                stats.count("time|violations-of-secure-implies-all-links-valid");
+                let qz = h.classify(&q.name, q.qtype).zone();
+                let rel = if b.0.zone == qz { "answer-zone" } else { "other-zone-of-the-chain" };
+                let kind = link_name(h, b.0);
+                let kind = kind.split('@').next().unwrap_or("");
+                ctx.violation(
+                    &format!("C14|validator|time-passes|secure-although-{}|link={kind}-of-{rel}|in={}|upstream={mode}", b.2, b.1),
+                    &format!(
+                        "one ValidationContext, time passes: {} (scenario {}, schedule {}, config {}); the last step is reported Secure although at that time {} ({}): {}",
+                        hist_text(),
+                        h.name,
+                        sched_json(tc, hist.sched),
+                        hist.cfg,
+                        link_name(h, b.0),
+                        b.1,
+                        b.2
+                    ),
+                    thist_json(tc, hist, i),
+                );
+            } else {
+                stats.count("time|secure-with-all-links-valid");
+            }
+        } else if all_served_valid && !leftovers {
+            if !expected.contains(&o.verdict.short().as_str()) {
+                let sk = match hist.sched {
+                    Sched::None => "none",
+                    Sched::Expire(_) => "expire",
+                    Sched::Incept(_) => "incept",
+                };
+                ctx.violation(
+                    &format!("C14|validator|time-passes|all-links-valid-and-served-but-reported-{}|schedule={sk}|upstream={mode}|step={i}", o.verdict.short()),
+                    &format!(
+                        "one ValidationContext, time passes: {} (scenario {}, schedule {}, config {}); in the last step every RRSIG the upstream serves is valid and no Bogus node can be left over (max_bogus_validity), but the authentic answer is reported {:?}, expected {expected:?}",
+                        hist_text(),
+                        h.name,
+                        sched_json(tc, hist.sched),
+                        hist.cfg,
+                        o.verdict
+                    ),
+                    thist_json(tc, hist, i),
+                );
+            } else {
+                stats.count("time|insecure-as-expected-with-all-links-valid");
+            }
+        } else {
+            stats.count("time|not-secure-and-not-demanded");
+        }
+        if all_served_valid && !leftovers {
+            stats.count("time|steps-where-the-expected-verdict-is-demanded");
+        }
+    }
+}
+
+/// The times of the second step for a schedule; `full`: just before / at / just after EVERY validity end,
+/// otherwise that only for the first end and just after for the others.
+fn time_menu(tc: &TimeCtx, sched: Sched, full: bool) -> Vec<i64> {
+    let n = tc.links.len() as i64;
+    let mut v: Vec<i64> = vec![0];
+    match sched {
+        Sched::Expire(_) => {
+            v.extend([99, 100, 101]);
+            for r in 0..n - 1 {
+                let t = 200 + 100 * r;
+                if full {
+                    v.extend([t - 1, t, t + 1]);
+                } else {
+                    v.push(t + 1);
+                }
+            }
+            v.extend([TIME_TTL - 1, TIME_TTL, TIME_TTL + 2, 700_000]);
+        }
+        Sched::Incept(_) => v.extend([99, 100, 101, 140]),
+        Sched::None => v.extend([60, TIME_MAXV_SHORT - 1, TIME_MAXV_SHORT, TIME_MAXV_SHORT + 2, TIME_TTL - 1, TIME_TTL, TIME_TTL + 2, TIME_MAXV_DEFAULT - 1, TIME_MAXV_DEFAULT, TIME_MAXV_DEFAULT + 2, 700_000]),
+    }
+    v
+}
+
+struct TimePlan {
+    tc: Arc<TimeCtx>,
+    hists: Vec<THist>,
+    summary: Value,
+}
+
+/// All histories of one scenario: schedule x config x (t1, upstream mode) x (q1, q2) [x third step].
+fn time_plan(tc: Arc<TimeCtx>, q1s: &[usize], q2s: &[usize], quick: bool) -> TimePlan {
+    let n = tc.links.len();
+    let mut scheds = vec![Sched::None];
+    scheds.extend((0..n).map(Sched::Expire));
+    scheds.extend((0..n).map(Sched::Incept));
+    let mut hists = vec![];
+    let (mut two, mut three) = (0u64, 0u64);
+    let mut menu_sizes = serde_json::Map::new();
+    for &sched in &scheds {
+        let menu = time_menu(&tc, sched, !quick);
+        menu_sizes.insert(match sched { Sched::None => "none", Sched::Expire(_) => "expire", Sched::Incept(_) => "incept" }.into(), json!(menu.len()));
+        // the short maximum node validity: with every schedule in the thorough tier, with "nothing expires" in quick
+        let cfgs: &[u8] = if sched == Sched::None || !quick { &[0, 1] } else { &[0] };
+        for &cfg in cfgs {
+            for &q1 in q1s {
+                for &q2 in q2s {
+                    for &t1 in &menu {
+                        for m1 in [UpMode::Replay, UpMode::Fresh] {
+                            let s0 = TStep { x: 0, q: q1, mode: UpMode::Replay };
+                            let s1 = TStep { x: t1, q: q2, mode: m1 };
+                            hists.push(THist { sched, cfg, steps: vec![s0.clone(), s1.clone()] });
+                            two += 1;
+                            // third step: around the first validity end (quick) / after every time of the menu (thorough);
+                            // no further time, one second, and beyond the lifetime of a Bogus node
+                            let around_first = matches!(sched, Sched::Expire(_) | Sched::Incept(_)) && (t1 == 100 || t1 == 101 || t1 == 99);
+                            if cfg != 0 || !(around_first || !quick) || sched == Sched::None {
+                                continue;
+                            }
+                            for dt in [0, 1, TIME_BOGUS_VALIDITY + 2] {
+                                for m2 in [UpMode::Replay, UpMode::Fresh] {
+                                    let q3s: Vec<usize> = if q1 == q2 { vec![q1] } else { vec![q1, q2] };
+                                    for q3 in q3s {
+                                        hists.push(THist { sched, cfg, steps: vec![s0.clone(), s1.clone(), TStep { x: t1 + dt, q: q3, mode: m2 }] });
+                                        three += 1;
+                                    }
+                                }
+                            }
+                        }
+                    }
+                }
+            }
+        }
+    }
+    let summary = json!({
+        "scenario": tc.h.name,
+        "links": tc.links.iter().map(|l| link_name(&tc.h, *l)).collect::<Vec<_>>(),
+        "schedules": scheds.len(),
+        "queries": tc.queries.iter().map(|q| format!("{} {}", show(&q.name), tname(q.qtype))).collect::<Vec<_>>(),
+        "first_queries": q1s.len(), "second_queries": q2s.len(),
+        "times_of_second_step": menu_sizes,
+        "two_step_histories": two, "three_step_histories": three,
+    });
+    TimePlan { tc, hists, summary }
+}
+
 fn main() {
     let ctx = Ctx::new("C14", "fault_enumeration");
     let now = std::time::SystemTime::now().duration_since(std::time::UNIX_EPOCH).unwrap().as_secs() as u32;
@@ -3674,6 +4324,19 @@ fn main() {
     let hiers: Vec<Arc<Hier>> = specs.par_iter().map(|s| Arc::new(build_hier(s.clone(), now))).collect();
     let run = Run { ctx: ctx.clone(), stats: Stats::new(), hiers, verbose: ctx.replay.is_some() };
 
+    // time passes on one context: virtual clock base and the query menus per scenario
+    let time_base = now as i64 + 100_000;
+    let tq = |n: &str, t: u16| Query { name: nm(n), qtype: t };
+    let time_q_zone = vec![tq("www.zone.tld.", T_A), tq("nx.zone.tld.", T_A), tq("www.tld.", T_A), tq("x.w.zone.tld.", T_A), tq("www.zone.tld.", T_TXT), tq("zone.tld.", T_DS), tq("nx.tld.", T_A)];
+    let time_q_sx = vec![tq("www.tld.", T_A), tq("www.evil.tld.", T_A), tq("www.a.b.tld.", T_A), tq("www.x.b.tld.", T_A)];
+    // (hierarchy, queries, number of first queries in the quick tier); S3 / S3b (insecure child) in the thorough tier only
+    let mut time_scen: Vec<(usize, Vec<Query>, usize)> = vec![(0, time_q_zone.clone(), 3), (1, time_q_zone.clone(), 3), (sx, time_q_sx, 3)];
+    if !quick || ctx.replay.is_some() {
+        time_scen.push((2, time_q_zone.clone(), 3));
+        time_scen.push((3, time_q_zone.clone(), 3));
+    }
+    let time_ctxs: Vec<Arc<TimeCtx>> = time_scen.iter().map(|(hi, qs, _)| Arc::new(TimeCtx::new(&run.hiers[*hi], time_base, qs.clone()))).collect();
+
     if let Some(path) = &ctx.replay {
         let v: Value = serde_json::from_str(&std::fs::read_to_string(path).expect("replay file")).expect("json");
         let c = &v["case"];
@@ -3709,6 +4372,28 @@ fn main() {
             let qq = Query { name: unshow(c["qname"].as_str().unwrap()), qtype: c["qtype"].as_u64().unwrap() as u16 };
             let b = |k: &str| c[k].as_bool().unwrap_or(false);
             judge_flags(&ctx, &run.stats, &run.hiers[hi], &qq, &Arc::new(faults), b("trust_anchor"), (b("request_ad"), b("request_do"), b("request_cd"), b("upstream_ad"), b("upstream_opt")), true);
+            ctx.finish(json!({"evaluations": run.stats.evals(), "distinct_nontrivial": 0, "rule": "replay", "samples": [c], "exhaustive": false}), &["replay of one case"]);
+        }
+        if c["special"].as_str() == Some("time-history") {
+            let tc = time_ctxs.iter().find(|t| t.h.name == c["scenario"].as_str().unwrap_or("")).expect("scenario of the time history");
+            let idx = c["schedule"]["index"].as_u64().unwrap_or(0) as usize;
+            let sched = match c["schedule"]["kind"].as_str() {
+                Some("expire") => Sched::Expire(idx),
+                Some("incept") => Sched::Incept(idx),
+                _ => Sched::None,
+            };
+            let steps: Vec<TStep> = c["steps"]
+                .as_array()
+                .expect("steps")
+                .iter()
+                .map(|s| {
+                    let (n, t) = (unshow(s[1].as_str().unwrap()), s[2].as_u64().unwrap() as u16);
+                    TStep { x: s[0].as_i64().unwrap(), q: tc.queries.iter().position(|q| q.name == n && q.qtype == t).expect("query of the menu"), mode: if s[3].as_str() == Some("fresh") { UpMode::Fresh } else { UpMode::Replay } }
+                })
+                .collect();
+            let hist = THist { sched, cfg: c["config"].as_u64().unwrap_or(0) as u8, steps };
+            println!("replaying time history: scenario {} schedule {} config {} links {:?}", tc.h.name, c["schedule"], hist.cfg, tc.links.iter().map(|l| link_name(&tc.h, *l)).collect::<Vec<_>>());
+            judge_time_history(&ctx, &run.stats, tc, &hist, true);
             ctx.finish(json!({"evaluations": run.stats.evals(), "distinct_nontrivial": 0, "rule": "replay", "samples": [c], "exhaustive": false}), &["replay of one case"]);
         }
         if let Some(sp) = c["special"].as_str() {
@@ -3782,10 +4467,15 @@ fn main() {
         println!("{}", run.stats.counters_json());
         return;
     }
-    let wd = Watchdog::start(ctx.clone(), Duration::from_secs(60), |d| format!("C14|validator|hang|fault={}", {
-        let fs: Vec<Fault> = serde_json::from_value(d["faults"].clone()).unwrap_or_default();
-        kinds_of(&fs)
-    }));
+    let wd = Watchdog::start(ctx.clone(), Duration::from_secs(60), |d| {
+        if d["special"].as_str() == Some("time-history") {
+            return "C14|validator|hang|time-passes".to_string();
+        }
+        format!("C14|validator|hang|fault={}", {
+            let fs: Vec<Fault> = serde_json::from_value(d["faults"].clone()).unwrap_or_default();
+            kinds_of(&fs)
+        })
+    });
     // in parallel with the enumeration: context reuse across the expiry of a signature (S1)
     let h0 = run.hiers[0].clone();
     let expiry = std::thread::spawn(move || run_across_expiry(&h0));
@@ -3826,6 +4516,34 @@ fn main() {
         }
     }
     histories.par_iter().for_each(|st| judge_history(&ctx, &run.stats, &run.hiers, hist0, st, false));
+
+    // histories in which time passes on one context (clock hook)
+    let t_time = std::time::Instant::now();
+    let time_plans: Vec<TimePlan> = time_ctxs
+        .iter()
+        .zip(time_scen.iter())
+        .map(|(tc, (_, qs, nq1))| {
+            let q1s: Vec<usize> = if quick { (0..*nq1).collect() } else { (0..qs.len()).collect() };
+            let q2s: Vec<usize> = (0..qs.len()).collect();
+            time_plan(tc.clone(), &q1s, &q2s, quick)
+        })
+        .collect();
+    let time_jobs: Vec<(usize, usize)> = time_plans.iter().enumerate().flat_map(|(pi, p)| (0..p.hists.len()).map(move |i| (pi, i))).collect();
+    time_jobs.par_iter().for_each(|(pi, i)| {
+        let p = &time_plans[*pi];
+        wd.enter(|| thist_json(&p.tc, &p.hists[*i], 0));
+        judge_time_history(&ctx, &run.stats, &p.tc, &p.hists[*i], false);
+        wd.leave();
+    });
+    let time_wall = t_time.elapsed().as_secs_f64();
+    if std::env::var("C14_TIME_ONLY").is_ok() {
+        println!("time part: {} histories in {time_wall:.1} s", time_jobs.len());
+        for p in &time_plans {
+            println!("{}", p.summary);
+        }
+        println!("{}", run.stats.counters_json());
+        ctx.finish_quiet();
+    }
 
     // trust anchor forms / routes and non-default configurations
     anchors_and_config(&ctx, &run.stats, &run.hiers, s7, None);
